@@ -347,6 +347,19 @@ func checkC06(job *Job, res *Result) {
 				if ld != fd {
 					viol("dataset-differs", fmt.Sprintf("follower reports caught_up; leader: %s ; follower: %s", dumpBrief(ld), dumpBrief(fd)))
 				}
+				// the copy stays a copy: a caught-up follower takes no writes of its own, by any route
+				for _, wr := range [][]string{
+					{"SET", "lk", "own", "POINT", "1", "1"},
+					{"EVAL", "return tile38.call('SET','lk','own','POINT',1,1)", "0"},
+					{"EVALNA", "return tile38.call('SET','lk','own','POINT',1,1)", "0"},
+					{"EVALNA", "return tile38.call('DEL','lk','w001')", "0"},
+					{"EVALRO", "return tile38.call('DEL','lk','w001')", "0"},
+				} {
+					fc.Do(wr...)
+				}
+				if fd2 := fullDump(fc); fd2 != fd {
+					viol("follower-took-a-write", fmt.Sprintf("after SET / EVAL / EVALNA / EVALRO writes sent to the caught-up follower its dataset changed: %s -> %s", dumpBrief(fd), dumpBrief(fd2)))
+				}
 				res.DistinctS(init + fmt.Sprint(names) + fmt.Sprint(len(ld)))
 			})
 			if len(x.Crashes) > 0 {
